@@ -198,6 +198,12 @@ def rule_r2(ctx) -> RuleResult:
     loops = [n for n in walk_no_nested(fn) if isinstance(n, ast.While) and WORK in unparse(n.test)]
     lp = loops[0]
     probes = [n for n in ast.walk(lp) if isinstance(n, ast.Subscript) and unparse(n.value) == "included_map"]
+    # `.get(key, default)` probes count as well; give them the .slice of a subscript
+    for n in ast.walk(lp):
+        if isinstance(n, ast.Call) and isinstance(n.func, ast.Attribute) and n.func.attr in ("get", "pop", "setdefault") \
+                and unparse(n.func.value) == "included_map" and n.args:
+            n.slice = n.args[0]
+            probes.append(n)
     tests = [n for n in ast.walk(lp) if isinstance(n, ast.Compare) and any(unparse(c) == "included_map" for c in n.comparators)]
     if not probes:
         raise AnalysisError("analyze_templates: included_map probe vanished")
@@ -226,6 +232,13 @@ def rule_r2(ctx) -> RuleResult:
     # values visited through get_page(<value>, template_ns_id)
     inner = [n for n in ast.walk(lp) if isinstance(n, ast.For) and isinstance(n.iter, ast.Subscript)
              and unparse(n.iter.value) == "included_map"]
+    if not inner:
+        # the includers may be collected into a name first
+        for n in ast.walk(lp):
+            if isinstance(n, ast.For) and isinstance(n.iter, ast.Name):
+                e = _resolve(fn, n.iter.id, n.lineno)
+                if e is not None and "included_map" in unparse(e):
+                    inner.append(n)
     if len(inner) != 1:
         raise AnalysisError("analyze_templates: loop over included_map[...] vanished")
     iv = unparse(inner[0].target)
@@ -286,6 +299,33 @@ def rule_r4(ctx, sf: SqlFacts) -> RuleResult:
     return rr
 
 
+def rule_r5(ctx, sf: SqlFacts) -> RuleResult:
+    """'every template the classifier flags' is marked, whatever kind of page it is: the marking
+    statement selects its row by key columns only.  A filter on redirect_to / model / need_pre_expand
+    leaves a flagged redirect unmarked, and the redirect propagation (R3) then has nothing to carry."""
+    rr = RuleResult("C17.R5", "the marking UPDATE selects by key columns only", min_instances=1)
+    ups = [s_ for s_ in sf.in_function("core.Wtp.set_template_pre_expand") if s_.kind == "UPDATE" and s_.table == "pages"]
+    if not ups:
+        raise AnalysisError("set_template_pre_expand: UPDATE pages vanished")
+    key_cols = {"title", "namespace_id"}
+    all_cols = {"title", "namespace_id", "redirect_to", "need_pre_expand", "body", "model"}
+    for u in ups:
+        import re as _re
+
+        mentioned = {w for w in _re.findall(r"[A-Za-z_]+", u.where or "") if w in all_cols}
+        sets = {c for c, _ in u.set_pairs}
+        if mentioned - key_cols:
+            rr.bad(Finding("C17.R5", CORE, "core.Wtp.set_template_pre_expand", "WHERE " + (u.where or "")[:80],
+                           "the marking statement filters on {}: a flagged page of that kind (e.g. a redirect) is never marked, and "
+                           "neither is the page it redirects to".format(", ".join(sorted(mentioned - key_cols))), u.call.lineno))
+        elif "title" not in mentioned:
+            rr.bad(Finding("C17.R5", CORE, "core.Wtp.set_template_pre_expand", "WHERE " + (u.where or "")[:80],
+                           "the marking statement does not select by title", u.call.lineno))
+        else:
+            rr.ok("core.Wtp.set_template_pre_expand", "UPDATE pages SET {} WHERE {}".format(",".join(sorted(sets)), u.where), {"where": u.where})
+    return rr
+
+
 def run(ctx) -> list:
     sf = SqlFacts(ctx.index)
-    return [rule_r1(ctx), rule_r2(ctx), rule_r3(ctx, sf), rule_r4(ctx, sf)]
+    return [rule_r1(ctx), rule_r2(ctx), rule_r3(ctx, sf), rule_r4(ctx, sf), rule_r5(ctx, sf)]
